@@ -150,6 +150,9 @@ def compare(spec, text, ctx, label):
 
 
 def check(case, ctx):
+    from yv import fuzzphase
+    if fuzzphase.note_stats(case, ctx):
+        return
     if 'portfolio' in case:
         spec = portfolio.MODELS[case['portfolio']]
         compare(spec, case['text'], ctx, 'enum')
@@ -203,7 +206,7 @@ def enum_small(bounds):
 DEEP = ['P', 'E', 'U2', 'AB', 'V', 'L', 'BF', 'DK', 'PR', 'SV', 'DI']
 
 
-def phases(tier):
+def _base_phases(tier):
     quick = tier != 'thorough'
     names = sorted(portfolio.MODELS)
     if quick:
@@ -216,3 +219,11 @@ def phases(tier):
         HypPhase('generated', cases(), 250 if quick else 4000),
         EnumPhase('small_documents', enum_small(b), note),
     ]
+
+
+def phases(tier):
+    ph = _base_phases(tier)
+    if tier == 'thorough':
+        from yv import fuzzphase
+        ph.append(fuzzphase.struct_fuzz_phase('C02', 15000))
+    return ph
